@@ -219,7 +219,10 @@ class NarwhalsMaterializer(FormulaMaterializer):
         if spec.output == "narwhals":
             if nw.dependencies.is_narwhals_dataframe(self.data):
                 return combined
-            return combined.to_native()
+            native = combined.to_native()
+            if isinstance(native, pandas.DataFrame):
+                native = _with_pandas_index(native, self.data, drop_rows)
+            return native
         if spec.output == "pandas":
             return _with_pandas_index(combined.to_pandas(), self.data, drop_rows)
         if spec.output == "numpy":
